@@ -147,7 +147,12 @@ class SubsetGroup(HubListener):
         self.subset_state = state
 
     def _add_data(self, data):
-        # add a new data object to group
+        # add a new data object to group. If the group was created while the
+        # DataCollectionAddMessage for this dataset was still queued (inside
+        # hub.delay_callbacks()), register() has already given the dataset
+        # its subset: it must not get a second one when the message arrives.
+        if any(s.data is data for s in self.subsets):
+            return
         s = GroupedSubset(data, self)
         data.add_subset(s)
         self.subsets.append(s)
